@@ -57,7 +57,7 @@ def hash_seeds(seed, n):
 
 def parse_config(cfg):
     """An interpreter configuration: "<PYTHONHASHSEED>[:flag[+flag]]" with flags
-    O (python -O), malloc_debug (PYTHONMALLOC=debug), dev (-X dev), Wdep (-W error::DeprecationWarning),
+    O (python -O), malloc_debug (PYTHONMALLOC=debug), dev (-X dev), Wdep (-W error: every warning category escalated),
     preload (import d42's sub-packages in another order before d42 itself)."""
     s = str(cfg)
     h, _, fl = s.partition(":")
@@ -74,7 +74,7 @@ def interpreter_cmd_env(cfg):
     if "dev" in flags:
         cmd += ["-X", "dev"]
     if "Wdep" in flags:
-        cmd += ["-W", "error::DeprecationWarning"]       # what `pytest -W error` users run with
+        cmd += ["-W", "error"]       # every warning category is an error: what `python -W error` / pytest's filterwarnings = error users run with
     if "malloc_debug" in flags:
         env["PYTHONMALLOC"] = "debug"
     if "preload" in flags:
@@ -462,6 +462,42 @@ def run_check(pid, tier, seed, workers=None, cases=None, quiet=False):
                     v["regression_of"] = ent["id"]
                     new_viol.append(v)
     new_viol.extend(history_viol)
+    # ---- C07: a sample of histories again, each alone in a new interpreter (rarest ingredients first);
+    # whatever the sweep worker executed before a history must not matter
+    if pid == "C07" and not any(x.get("kind") == "process_history" for x in new_viol):
+        tags = {}
+        for lines in sweep:
+            for l in lines:
+                if l.get("type") == "stats":
+                    for k, ts in l.get("case_tags", {}).items():
+                        for t in ts:
+                            tags.setdefault(t, []).append(int(k))
+        n_alone = cfg.get("alone_sample", 48)
+        chosen = []
+        for t in sorted(tags, key=lambda t: (len(tags[t]), t)):
+            for k in sorted(tags[t])[1:4]:          # not a worker's very first histories: those had no predecessors
+                if k >= W and k not in chosen and len(chosen) < (3 * n_alone) // 4:
+                    chosen.append(k)
+        import random as _r
+        rr = _r.Random(derive(seed, "alone-sample"))
+        rest = [k for k in sorted(case_digests) if k >= W and k not in chosen]
+        chosen += rr.sample(rest, min(len(rest), max(0, n_alone - len(chosen))))
+        n_done = 0
+        for b in range(0, len(chosen), 16):
+            batch = chosen[b:b + 16]
+            outs = run_sequences(pid, seed, cfg, [[k] for k in batch], wall, 0)
+            for k, o in zip(batch, outs):
+                if o is None:
+                    continue
+                n_done += 1
+                if o.get(k) != case_digests.get(k):
+                    pv = process_history_violation(pid, seed, cfg, k, W, wall, pred_b=[])
+                    if pv is not None:
+                        new_viol.append(pv)
+                        break
+            if any(x.get("kind") == "process_history" for x in new_viol):
+                break
+        probes["alone_in_new_interpreter_rechecks"] = n_done
     # ---- hash echo (C07)
     hs_compared = 0
     if n_extra:
